@@ -1,7 +1,9 @@
 //! rverif: executes scenario families against the real ractor code and records traces.
 //! All policy (what to validate, verdicts) lives in /verif/tools.
 mod explore;
+mod fam_lifecycle;
 mod fam_mailbox;
+mod tdrv;
 mod hctl;
 mod trace;
 
@@ -25,15 +27,37 @@ fn args() -> (String, HashMap<String, String>) {
     (cmd, m)
 }
 
+pub static PROGRESS: std::sync::atomic::AtomicU64 = std::sync::atomic::AtomicU64::new(0);
+
 fn main() {
     // panics inside code under test are data; keep the default hook quiet
     std::panic::set_hook(Box::new(|_| {}));
+    // watchdog: a wedged run must not hang the check (exit 3 = stalled)
+    std::thread::spawn(|| {
+        let mut last = 0;
+        let mut idle = 0;
+        loop {
+            std::thread::sleep(std::time::Duration::from_secs(5));
+            let p = PROGRESS.load(std::sync::atomic::Ordering::SeqCst);
+            if p == last {
+                idle += 1;
+                if idle >= 24 {
+                    eprintln!("rverif: no progress for 120 s, giving up");
+                    std::process::exit(3);
+                }
+            } else {
+                idle = 0;
+                last = p;
+            }
+        }
+    });
     let (cmd, a) = args();
     let out = a.get("out").cloned().unwrap_or_else(|| "/dev/null".into());
     let tier = a.get("tier").cloned().unwrap_or_else(|| "quick".into());
     let seed: u64 = a.get("seed").and_then(|s| s.parse().ok()).unwrap_or(1);
     let summary = match cmd.as_str() {
         "mailbox" => fam_mailbox::batch(&out, &tier, seed),
+        "lifecycle" => fam_lifecycle::batch(&out, &tier, seed),
         "mailbox-replay" => {
             let shape = a.get("shape-str").cloned().unwrap_or_default();
             let sched: Vec<usize> = serde_json::from_str(a.get("sched").map(|s| s.as_str()).unwrap_or("[]")).unwrap_or_default();
